@@ -537,6 +537,12 @@ def _apply(op, w, sig, route, cls, rec):
     elif op == "sibling_sd":  # ANOTHER wrapper of the same user function gets defaults for every name
         w2 = cls(sig.f)
         w2.set_default(**full)
+    elif op == "twin_function":  # another function object made from the SAME code (a factory / a lambda in a loop) but
+        # with other declared defaults is wrapped and called: it uses ITS defaults
+        import types
+        f = sig.f
+        twin = types.FunctionType(f.__code__, f.__globals__, f.__name__, tuple(sig.tok2[nm] for nm in sig.opt), f.__closure__)
+        rec.append(("twin", invoke(cls(twin), {nm: sig.tok2[nm] for nm in list(sig.req) + [EXTRA]}, route)))
     elif op == "sibling_rd":  # ... or loses its declared defaults
         w2 = cls(sig.f)
         if sig.opt:
@@ -595,7 +601,9 @@ def seq_case(kind, n, m, seq, family="seq"):
             else:
                 _, got = received_call(val, n, kind)
             for j, nm in enumerate(o["names"]):
-                if what == "callmin" and nm in o["opt"]:
+                if what == "twin":
+                    w_ = leaves(o["new"][nm])
+                elif what == "callmin" and nm in o["opt"]:
                     w_ = leaves(o["dfl"][nm])
                 else:
                     w_ = leaves(o["new"][nm])
@@ -743,6 +751,10 @@ def cases(tier):
         for seq in (("sibling_sd",), ("sibling_rd",), ("sibling_sd", "call")) + ((("sibling_rd", "pe_some"), ("sibling_sd", "sibling_rd")) if thorough else ()):
             cs.append(seq_case(kind, 3, 1, seq, family="sibling"))
     cs.append(seq_case("UF", 2, 2, ("sibling_rd",), family="sibling"))
+    # ---- two function objects sharing one code object (different declared defaults)
+    for kind in ("UF", "DUF"):
+        cs.append(seq_case(kind, 3, 2, ("twin_function",), family="twin"))
+        cs.append(seq_case(kind, 3, 1, ("call", "twin_function"), family="twin"))
     # ---- constants, explicit containers
     cs.append(constant_case("UF"))
     cs.append(constant_case("DUF"))
